@@ -219,7 +219,7 @@ pub fn run(ctx: &mut Ctx) -> Result<(), Violation> {
     }
     ctx.stage("hand-written-hard-cases", true, (st, None))?;
 
-    let cases = ctx.tier.pick(200_000, 12_000_000);
+    let cases = ctx.tier.cases(200_000, 12_000_000);
     let r = par_random(ctx, "random", cases, 260, |tape, st| {
         let mut t = Tape::new(tape);
         let mut cfg = Cfg::standard(2 + t.choose(4), 1 + t.choose(5));
@@ -270,7 +270,7 @@ pub fn run(ctx: &mut Ctx) -> Result<(), Violation> {
 
     // wide texts: 65..300 names (beyond any machine-word bitmask), the oracle is purely syntactic and
     // the diagrams stay linear (literals and small quantified clauses over neighbouring names)
-    let cases = ctx.tier.pick(600, 40_000);
+    let cases = ctx.tier.cases(600, 40_000);
     let r = par_random(ctx, "wide", cases, 700, |tape, st| {
         let mut t = Tape::new(tape);
         let (text, n) = gen_wide_text(&mut t);
